@@ -261,3 +261,19 @@ Theorem C16_all_string_spellings_agree : forall t frac sep off tz ws1 ws2 rms ru
      parse_str_to_epoch_seconds (dec_of_Z (t * 1000000000 + rns)) = Some t).
 Proof. exact all_string_spellings_agree. Qed.
 Print Assumptions C16_all_string_spellings_agree.
+
+(** ** PER buckets under a configured time zone with a fixed UTC offset *)
+From Snel Require Import Model.Bucket Model.BucketTz Proofs.BucketProofs Proofs.BucketTzProofs.
+
+(** the bucket contains the instant ... *)
+Theorem C16_bucket_tz_contains : forall ws off secs g, 0 <= ws <= 6 ->
+  calendar_bucket_secs_off ws off secs g <= secs < calendar_next_secs_off ws off secs g.
+Proof. exact bucket_off_contains. Qed.
+Print Assumptions C16_bucket_tz_contains.
+
+(** ... and starts on the boundary of the LOCAL calendar (hour / day / week start / first of month /
+    1 January in wall-clock time of the configured offset). *)
+Theorem C16_bucket_tz_on_local_boundary : forall ws off secs g, 0 <= ws <= 6 ->
+  on_boundary ws g (calendar_bucket_secs_off ws off secs g + off).
+Proof. exact bucket_off_on_local_boundary. Qed.
+Print Assumptions C16_bucket_tz_on_local_boundary.
